@@ -102,6 +102,7 @@ def check_function(facts, fn, res, rule, nbparticles_field="nbParticles"):
     """examines every leaf-visitor lambda (argument of applyToAllLeaves) of fn"""
     decls = outer_decl_types(facts, fn)
     n = 0
+    slot_offsets = {}
     b = tbf.body(fn)
     for call in walk(b):
         if call.get("k") not in ("CallExpr", "CXXMemberCallExpr") or tbf.callee_name(call) != "applyToAllLeaves":
@@ -109,6 +110,7 @@ def check_function(facts, fn, res, rule, nbparticles_field="nbParticles"):
         lams = [strip(a) for a in tbf.call_args(call) if strip(a).get("k") == "LambdaExpr"]
         for lam in lams:
             lm = LambdaModel(facts, fn, lam)
+            recognised = set()
             for x in walk(lam):
                 if x.get("k") != "BinaryOperator" or x.get("op") != "=":
                     continue
@@ -133,6 +135,7 @@ def check_function(facts, fn, res, rule, nbparticles_field="nbParticles"):
                                   "vars": (facts.ntext(outer_idx), facts.ntext(inner_idx))})
                 if len(sides) != 2:
                     continue
+                recognised.add(id(x))
                 n += 1
                 key = "%s = %s" % (facts.ntext(kids(x)[0]), facts.ntext(kids(x)[1]))
                 res.instance(rule, "%s @%d" % (fn["qname"], x["l"][1]), facts.loc(x),
@@ -159,7 +162,7 @@ def check_function(facts, fn, res, rule, nbparticles_field="nbParticles"):
             # every other use of the per-leaf pointer rows (data / results) inside a leaf visitor
             in_copy = set()
             for x in walk(lam):
-                if x.get("k") == "BinaryOperator" and x.get("op") == "=":
+                if x.get("k") == "BinaryOperator" and x.get("op") == "=" and id(x) in recognised:
                     for y in walk(x):
                         in_copy.add(id(y))
             ptr_params = [p["did"] for p in lm.params[2:4]]
@@ -180,6 +183,8 @@ def check_function(facts, fn, res, rule, nbparticles_field="nbParticles"):
                         res.violation(rule, tbf.rel(facts.path_of(x)), fn["qname"], "bulk:%s@%d" % (x.get("name"), x["l"][1]), x["l"][1],
                                       "per-leaf values '%s' are moved in bulk (%s) in storage order; values must be staged and restored under the particle's original index, storage order changes when particles move" % (x.get("name"), nm))
                     elif call is not None and helper_copy(facts, fn, lm, call, decls, res, rule):
+                        n += 1
+                    elif lambda_copy(facts, fn, lm, lam, decls, res, rule, slot_offsets):
                         n += 1
                     else:
                         raise AnalysisBroken("%s: use of the per-leaf pointer array '%s' outside a recognised copy statement" % (facts.loc(x), x.get("name")))
@@ -277,6 +282,98 @@ def helper_copy(facts, fn, lm, call, decls, res, rule):
         if not copyrel.position_sweeps(sympy.sympify(p1), ft.loops, N):
             raise AnalysisBroken("%s: cannot show that leaf position `%s` sweeps [0, number of particles of the leaf) exactly once" % (facts.loc(ft.node), p1))
     _helper_done[key] = True
+    return True
+
+
+_lambda_done = {}
+
+
+def lambda_copy(facts, fn, lm, lam, decls, res, rule, slot_offsets):
+    """a leaf visitor that copies through reference locals, combined records or configuration switches: its copies are summarised by
+    the copy-relation engine.  Required: the record of the particle at leaf position p is the one under IDX[p]; the staging
+    element type equals the element type of the rows it is copied from / to; the value slot is the row index plus a constant
+    (a combined record), the same constant when the values are scattered back; for the export functions (C17) the constant is 0."""
+    import sympy
+    import copyrel
+    key = id(lam)
+    if key in _lambda_done:
+        return _lambda_done[key]
+    N = sympy.Symbol("N", integer=True, positive=True)
+    bind = {}
+    dest_info = {}
+    for x in walk(lam):
+        if x.get("k") == "DeclRefExpr" and x.get("did") in decls and x.get("did") not in bind:
+            d = decls[x["did"]]
+            te = decl_extent(facts, fn, d) if d.get("k") == "VarDecl" else None
+            if te is not None and te[0][0][0] == "orig":
+                bind[x["did"]] = copyrel.Obj("DEST", d["name"])
+                dest_info[d["name"]] = (d, te)
+    leaf_info = {}
+    bind[lm.indexes] = copyrel.Obj("IDX", "indexes")
+    for q in lm.params[2:4]:
+        bind[q["did"]] = copyrel.Obj("LEAF", q["name"] or "rows%d" % q["did"])
+        leaf_info[q["name"] or "rows%d" % q["did"]] = type_extent(q.get("t", ""))
+    hdr = lm.header
+
+    class I2(copyrel.Interp):
+        def ev(self, n):
+            n0 = strip(n)
+            if n0.get("k") in ("MemberExpr", "CXXDependentScopeMemberExpr") and n0.get("name") == "nbParticles" and kids(n0) and strip(kids(n0)[0]).get("did") == hdr:
+                return N
+            if n0.get("k") == "DeclRefExpr" and n0.get("dk") == "Var" and n0.get("did") not in self.env and n0.get("did") not in self.buffers:
+                d0 = decls.get(n0.get("did"))
+                if d0 is not None and d0.get("constexpr") and kids(d0):
+                    return self.ev(kids(d0)[0])
+            return copyrel.Interp.ev(self, n)
+    it = I2(facts, fn, bind)
+    lbody = [y for y in lam.get("c", []) if y is not None and y.get("k") == "CompoundStmt"]
+    if not lbody:
+        _lambda_done[key] = False
+        return False
+    it.run(lbody[0])
+    if not it.out:
+        _lambda_done[key] = False
+        return False
+    f = tbf.rel(facts.path_of(fn))
+    strict = rule.startswith("C17")
+    for ft in it.out:
+        d, src = ft.dest_obj, ft.src
+        if d.role == "DEST" and isinstance(src, copyrel.Load) and src.obj.role == "LEAF" and len(ft.dest_idx) == 2 and isinstance(ft.dest_idx[0], copyrel.Load):
+            direction, dest_name, leaf_name = "gather", d.name, src.obj.name
+            p1, v1 = ft.dest_idx[0].idx[0], ft.dest_idx[1]
+            v2, p2 = src.idx
+        elif d.role == "LEAF" and isinstance(src, copyrel.Load) and src.obj.role == "DEST" and len(src.idx) == 2 and isinstance(src.idx[0], copyrel.Load):
+            direction, dest_name, leaf_name = "scatter", src.obj.name, d.name
+            v2, p2 = ft.dest_idx
+            p1, v1 = src.idx[0].idx[0], src.idx[1]
+        else:
+            res.violation(rule, f, fn["qname"], "shape@%d" % ft.node["l"][1], ft.node["l"][1], "the copy `%s` does not relate one per-particle record (under the particle's original index) with one per-leaf value" % facts.ntext(ft.node)[:80])
+            continue
+        res.instance(rule, "%s @%d (%s)" % (fn["qname"], ft.node["l"][1], direction), facts.loc(ft.node), "%s[IDX[%s]][%s] %s %s[%s][%s]" % (dest_name, p1, v1, "<-" if direction == "gather" else "->", leaf_name, v2, p2))
+        if sympy.simplify(p1 - p2) != 0:
+            res.violation(rule, f, fn["qname"], "position@%d" % ft.node["l"][1], ft.node["l"][1],
+                          "the record under the original index of the particle at leaf position `%s` is paired with the values stored at leaf position `%s`" % (p1, p2))
+            continue
+        off = sympy.simplify(v1 - v2)
+        loopsyms = set(l[0] for l in ft.loops)
+        if off.free_symbols & loopsyms:
+            res.violation(rule, f, fn["qname"], "value@%d" % ft.node["l"][1], ft.node["l"][1], "value slot `%s` of the record is paired with value row `%s`" % (v1, v2))
+            continue
+        if strict and off != 0:
+            res.violation(rule, f, fn["qname"], "value-offset@%d" % ft.node["l"][1], ft.node["l"][1], "value row `%s` is exported in slot `%s` of the returned record" % (v2, v1))
+        prev = slot_offsets.setdefault((dest_name, leaf_name), (off, direction, ft.node))
+        if sympy.simplify(prev[0] - off) != 0:
+            res.violation(rule.replace("gather-scatter", "scatter-inverse"), f, fn["qname"], "slot-offset@%d" % ft.node["l"][1], ft.node["l"][1],
+                          "the values of '%s' are %sed at slot offset %s but were %sed at offset %s (line %d): the scatter is not the inverse of the gather" % (leaf_name, direction, off, prev[1], prev[0], prev[2]["l"][1]))
+        dte = dest_info.get(dest_name)
+        lte = leaf_info.get(leaf_name)
+        if dte is not None and lte is not None and dte[1][1] != lte[1]:
+            res.violation(rule + ".elem-type", tbf.rel(facts.path_of(dte[0])), fn["qname"], dest_name, dte[0]["l"][1],
+                          "per-particle staging array '%s' stores %s but the rows '%s' it is copied %s hold %s values: the values are converted on the way (explicit casts included) "
+                          "and are not preserved when the two types differ" % (dest_name, dte[1][1], leaf_name, "from" if direction == "gather" else "to", lte[1]))
+        if not copyrel.position_sweeps(sympy.sympify(p1), ft.loops, N):
+            raise AnalysisBroken("%s: cannot show that leaf position `%s` sweeps [0, number of particles of the leaf) exactly once" % (facts.loc(ft.node), p1))
+    _lambda_done[key] = True
     return True
 
 
